@@ -110,6 +110,10 @@ func (c *Ctx) calleeLabel(cc *ssa.CallCommon) string {
 	case *ssa.FreeVar:
 		return "captured:" + v.Name()
 	}
+	if nt, ok := types.Unalias(cc.Value.Type()).(*types.Named); ok {
+		// a call through a value of a named function type (e.g. the element of a slice of callbacks)
+		return "functype:" + nt.Obj().Name()
+	}
 	return "dynamic"
 }
 
